@@ -435,19 +435,25 @@ package client
 //@   trusted
 //@   requires ui != nil && r != nil && sent(r.done) == 0 && u.State == reqState(r.req) && u.ActorIdx == reqActor(r.req) &&
 //@            updChecked(r.channel, r.req, r.pidx) && filterOK(ui, u.State, u.ActorIdx)
-//@   modifies mach(r.channel).*, mach(r.channel).prevTXs[*], r.channel.parent.subChannelWithdrawals.entries[*], ghost("sends")
+//@   modifies mach(r.channel).*, mach(r.channel).prevTXs[*], r.channel.parent.subChannelWithdrawals.entries[*], ghost("sends"), ghost("aflag")
 
 // The responder: one answer per request (the done channel has capacity one and is read at most once).
 // respOK: a responder as handleUpdateReq builds it.
 //@ pred respOK(r *UpdateResponder) = r != nil && chanOK(r.channel) && reqDecoded(r.req) && r.pidx < 2 && mach(r.channel).idx != r.pidx
 //@ func (*UpdateResponder).Accept
 //@   requires respOK(r) && sent(r.done) == 0
-//@   modifies mach(r.channel).*, mach(r.channel).prevTXs[*], r.channel.parent.subChannelWithdrawals.entries[*], ghost("sends")
+//@   modifies mach(r.channel).*, mach(r.channel).prevTXs[*], r.channel.parent.subChannelWithdrawals.entries[*], ghost("sends"), ghost("aflag")
 //@   ensures sent(r.done) == 1
+// one decision per request: the responder's "called" flag is claimed by whichever of Accept/Reject comes first (it is set afterwards
+// in any case), and the update is accepted / rejected only by the call that found it unset. flagset(&x.f): ghost state of an atomic flag.
+//@   ensures ctx != nil ==> flagset(&r.called)
+//@   callsite (*Channel).acceptUpdate : !old(flagset(&r.called))
 //@ func (*UpdateResponder).Reject
 //@   requires respOK(r) && sent(r.done) == 0
-//@   modifies ghost("sends")
+//@   modifies ghost("sends"), ghost("aflag")
 //@   ensures sent(r.done) == 1
+//@   ensures ctx != nil ==> flagset(&r.called)
+//@   callsite (*Channel).rejectUpdate : !old(flagset(&r.called))
 
 //@ interface ChannelUpdateProposal
 //@   method Base
@@ -504,12 +510,12 @@ package client
 // bounded: the context they pass carries a deadline (bounded(ctx): made by context.WithTimeout/WithDeadline).
 //@ func (*Client).rejectProposal
 //@   requires c != nil && c.log != nil && respOK(responder) && sent(responder.done) == 0
-//@   modifies ghost("sends"), ghost("ctxbounded")
+//@   modifies ghost("sends"), ghost("aflag"), ghost("ctxbounded")
 //@   callsite (*UpdateResponder).Reject : bounded(ctx)
 //@   ensures sent(responder.done) == 1
 //@ func (*Client).acceptProposal
 //@   requires c != nil && c.log != nil && respOK(responder) && sent(responder.done) == 0
-//@   modifies mach(responder.channel).*, mach(responder.channel).prevTXs[*], responder.channel.parent.subChannelWithdrawals.entries[*], ghost("sends"), ghost("ctxbounded")
+//@   modifies mach(responder.channel).*, mach(responder.channel).prevTXs[*], responder.channel.parent.subChannelWithdrawals.entries[*], ghost("sends"), ghost("aflag"), ghost("ctxbounded")
 //@   callsite (*UpdateResponder).Accept : bounded(ctx)
 //@   ensures sent(responder.done) == 1
 
@@ -521,14 +527,14 @@ package client
 
 //@ func (*Client).handleVirtualChannelFundingProposal
 //@   requires c != nil && c.log != nil && c.fundingWatcher != nil && fundPropDecoded(prop) && respOK(responder) && responder.channel == ch && sent(responder.done) == 0
-//@   modifies mach(ch).*, mach(ch).prevTXs[*], ch.parent.subChannelWithdrawals.entries[*], ghost("sends"), ghost("ctxbounded")
+//@   modifies mach(ch).*, mach(ch).prevTXs[*], ch.parent.subChannelWithdrawals.entries[*], ghost("sends"), ghost("aflag"), ghost("ctxbounded")
 //@   callsite (*Client).acceptProposal : old(fundingOK(ch, prop))
 //@   callsite (*stateWatcher).Await : bounded(ctx)
 //@   ensures sent(responder.done) == 1
 
 //@ func (*Client).handleVirtualChannelSettlementProposal
 //@   requires c != nil && c.log != nil && c.settlementWatcher != nil && settlePropDecoded(prop) && respOK(responder) && responder.channel == parent && sent(responder.done) == 0
-//@   modifies mach(parent).*, mach(parent).prevTXs[*], parent.parent.subChannelWithdrawals.entries[*], ghost("sends"), ghost("ctxbounded")
+//@   modifies mach(parent).*, mach(parent).prevTXs[*], parent.parent.subChannelWithdrawals.entries[*], ghost("sends"), ghost("aflag"), ghost("ctxbounded")
 //@   callsite (*stateWatcher).Await : old(settleOK(parent, prop)) && bounded(ctx)
 //@   ensures sent(responder.done) <= 1
 
